@@ -21,6 +21,8 @@ type gor struct {
 	// timeout is what ends the wait
 	canTimeout bool
 	timedOut   bool
+	// preempted with a delay: resumes only when no other goroutine can run
+	delayed bool
 }
 
 type killSignal struct{}
@@ -105,14 +107,22 @@ func (ex *exec) describeBlocked() string {
 
 // pickNext selects the next goroutine to run (not self unless it is the only one).
 func (ex *exec) pickNext(self *gor) *gor {
-	var cands []*gor
+	var cands, late []*gor
 	for _, g := range ex.gors {
 		if g != self && ex.runnable(g) {
-			cands = append(cands, g)
+			if g.delayed {
+				late = append(late, g)
+			} else {
+				cands = append(cands, g)
+			}
 		}
 	}
 	if len(cands) == 0 {
-		return nil
+		if len(late) == 0 {
+			return nil
+		}
+		late[0].delayed = false
+		return late[0]
 	}
 	// When the running goroutine blocks or ends, the next one is taken in
 	// creation order; schedule exploration happens at the (budgeted)
@@ -212,11 +222,27 @@ func (ex *exec) preemptPoint() {
 	if len(cands) == 0 {
 		return
 	}
-	c := ex.choose(len(cands)+1, "preempt")
+	// 0: continue; 1..n: switch to candidate i (the preempted goroutine stays
+	// runnable); n+1: switch to the first candidate and resume only when nobody
+	// else can run (an arbitrarily long delay of this goroutine)
+	c := ex.choose(len(cands)+2, "preempt")
 	if c == 0 {
 		return
 	}
 	ex.preempt--
+	if c == len(cands)+1 {
+		g.delayed = true
+		next := cands[0]
+		for _, o := range cands {
+			if !o.delayed {
+				next = o
+				break
+			}
+		}
+		ex.yieldTo(g, next)
+		g.delayed = false
+		return
+	}
 	ex.yieldTo(g, cands[c-1])
 }
 
